@@ -309,7 +309,7 @@ impl<'a> Gen<'a> {
             Node::RangeKind { sheet_name: None, sheet_index: 0, absolute_row1: true, absolute_column1: false, row1: 1, column1: 0, absolute_row2: true, absolute_column2: false, row2: 1048576, column2: 1 },
             Node::RangeKind { sheet_name: None, sheet_index: 0, absolute_row1: false, absolute_column1: true, row1: 0, column1: 1, absolute_row2: false, absolute_column2: true, row2: 2, column2: 16384 },
             Node::WrongRangeKind { sheet_name: Some("Ghost".into()), absolute_row1: false, absolute_column1: false, row1: 0, column1: 0, absolute_row2: false, absolute_column2: false, row2: 1, column2: 1 },
-            self.array1(), self.array2(), Node::ArrayKind(vec![vec![ArrayNode::Error(Error::NA), ArrayNode::Number(1.0)]]), Node::ArrayKind(vec![vec![ArrayNode::Number(7.0)]]),
+            self.array1(), self.array2(), Node::ArrayKind(vec![vec![ArrayNode::Error(Error::NA), ArrayNode::Number(1.0)]]), Node::ArrayKind(vec![vec![ArrayNode::Error(Error::NIMPL), ArrayNode::Error(Error::DIV)]]), Node::ArrayKind(vec![vec![ArrayNode::Number(7.0)]]),
             self.defname(), Node::DefinedNameKind(("local_n".into(), Some(0), "Sheet1!$B$2:$B$3".into())), var("x"), var("rate_1"), var("_u.v"),
             self.named("foo", vec![]), self.named("foo", vec![Node::EmptyArgKind, Node::EmptyArgKind]), self.named("Foo", vec![num(1.0)]),
             self.lambda("x,y", mul(var("x"), var("y"))), self.lambda("x,[y]", var("x")), self.lambda("", num(1.0)), self.lambda_call("x", var("x"), vec![]), self.lambda_call("x,y", add(var("x"), var("y")), vec![num(1.0), num(2.0)]),
@@ -339,7 +339,7 @@ impl<'a> Gen<'a> {
             8 => sref("Second Sheet", 1, 1 + r.below(3) as i32, 1),
             9 => var(["xvar", "yvar", "total"][r.below(3) as usize]),
             10 => self.defname(),
-            11 => Node::ErrorKind([Error::VALUE, Error::DIV, Error::NA, Error::REF][r.below(4) as usize].clone()),
+            11 => Node::ErrorKind([Error::VALUE, Error::DIV, Error::NA, Error::REF, Error::NIMPL][r.below(5) as usize].clone()),
             12 => self.array1(),
             13 => self.array2(),
             14 => wref(1, 1),
